@@ -18,6 +18,7 @@ import (
 	"pgregory.net/rapid"
 
 	"github.com/gardenbed/emerge/internal/ebnf/parser/spec"
+	"github.com/gardenbed/emerge/internal/vh/gen"
 	"github.com/gardenbed/emerge/internal/vh/rec"
 	"github.com/gardenbed/emerge/internal/vh/ref"
 )
@@ -57,6 +58,7 @@ type input struct {
 	Kind     string            `json:"kind"` // plain | operator
 	Spec     string            `json:"spec"`
 	Grammar  *ref.Grammar      `json:"grammar,omitempty"`
+	Model    *ref.SpecModel    `json:"model,omitempty"`
 	Binary   map[string]ref.OpInfo `json:"binary,omitempty"`
 	Prefix   map[string]ref.OpInfo `json:"prefix,omitempty"`
 	Declared bool              `json:"declared"`
@@ -334,6 +336,253 @@ func TestRandomReducedGrammars(t *testing.T) {
 		rec.Sample("random-"+cls, src)
 		if err != nil {
 			rec.Fail(t, "plain", input{Kind: "plain", Spec: src, Grammar: g, N: rec.Pick(6, 7)}, "%v", err)
+		}
+	})
+}
+
+// ---------- EBNF grammars, end to end ----------
+
+// derived returns the grammar emerge derived from a specification as a plain grammar of the reference model.
+func derived(sp *spec.Spec) *ref.Grammar {
+	g := &ref.Grammar{}
+	for n := range sp.Grammar.NonTerminals.All() {
+		g.NTs = append(g.NTs, string(n))
+	}
+	sort.Strings(g.NTs)
+	for a := range sp.Grammar.Terminals.All() {
+		g.Terms = append(g.Terms, string(a))
+	}
+	sort.Strings(g.Terms)
+	for p := range sp.Grammar.Productions.All() {
+		gp := ref.GProd{Head: string(p.Head), Body: []string{}}
+		for _, s := range p.Body {
+			gp.Body = append(gp.Body, s.Name())
+		}
+		g.Prods = append(g.Prods, gp)
+	}
+	sort.Slice(g.Prods, func(i, j int) bool {
+		return g.Prods[i].Head+"\x00"+strings.Join(g.Prods[i].Body, " ") < g.Prods[j].Head+"\x00"+strings.Join(g.Prods[j].Body, " ")
+	})
+	return g
+}
+
+// checkEBNF: specifications that use the EBNF operators.  Whether the table is handed out is decided by the reference
+// construction on the derived grammar; what the table accepts is compared with the sentences the EBNF text denotes
+// (computed from the model of the text, not from the derived grammar).
+func checkEBNF(m *ref.SpecModel, src string, n int, cyclicListed bool) (cls string, nontrivial bool, err error) {
+	var sp *spec.Spec
+	var perr error
+	if p := rec.Guard(func() { sp, perr = spec.Parse("t.ebnf", strings.NewReader(src)) }); p != nil {
+		return "panic", false, fmt.Errorf("%v\nspecification:\n%s", p, src)
+	}
+	if perr != nil {
+		return "rejected_at_parse", false, fmt.Errorf("well-formed specification rejected: %v\nspecification:\n%s", perr, src)
+	}
+	g := derived(sp)
+	L := ref.ModelLanguages(m.Rules(), n)["start"]
+	// the grammar the table is built for must be the grammar of the text (otherwise a wrongly derived, ambiguous
+	// grammar would merely count as "conflicting")
+	if w, inText, bad := L.Diff(ref.CFGLanguages(g.CFG(), n)["start"]); bad {
+		return "ebnf_derivation", true, fmt.Errorf("the sentence [%s] is denoted by the EBNF text: %v, but generated by the grammar the table is built for: %v\nspecification:\n%s", ref.Show(w), inText, !inText, src)
+	}
+	switch {
+	case g.HasUnproductive():
+		return "excluded_unproductive", false, nil
+	case !g.Reduced():
+		return "excluded_not_reduced", false, nil
+	case g.Cyclic() && cyclicListed:
+		return "excluded_known_cyclic", false, nil
+	case g.KernelSubsetHazard() && kernelTolerated():
+		return "excluded_known_kernel_subset", false, nil
+	}
+	lalr, _, conflicts, ok := g.Classify()
+	if !ok {
+		return "too_large", false, nil
+	}
+	var T *lr.ParsingTable
+	var terr error
+	if p := rec.Guard(func() { T, terr = sp.LALRParsingTable() }); p != nil {
+		return "panic", false, fmt.Errorf("%v\nspecification:\n%s", p, src)
+	}
+	if lalr && terr != nil {
+		return "ebnf_lalr", false, fmt.Errorf("the derived grammar is LALR(1), but the table is refused: %v\nspecification:\n%s", terr, src)
+	}
+	if !lalr && terr == nil {
+		return "ebnf_conflicting", true, fmt.Errorf("the derived grammar has LALR(1) conflicts (e.g. on %q: %v) and there are no directives, but a table is handed out\nspecification:\n%s", conflicts[0].Terminal, conflicts[0].Actions, src)
+	}
+	if terr != nil {
+		return "ebnf_conflicting", true, nil
+	}
+	ops := false
+	for _, r := range m.Rules() {
+		r.RHS.Walk(func(x *ref.RHS) {
+			if x.K == "opt" || x.K == "star" || x.K == "plus" || x.K == "grp" {
+				ops = true
+			}
+		})
+	}
+	for _, w := range ref.AllStrings(g.Terms, n) {
+		acc, _, derr := drive(T, w, nil)
+		if derr != nil {
+			return "ebnf_lalr", ops, fmt.Errorf("%v\nspecification:\n%s", derr, src)
+		}
+		if acc != L[ref.Word(w)] {
+			return "ebnf_lalr", ops, fmt.Errorf("the sentence [%s] is denoted by the EBNF text: %v, but the table accepts it: %v\nspecification:\n%s", strings.Join(w, " "), L[ref.Word(w)], acc, src)
+		}
+	}
+	return "ebnf_lalr", ops, nil
+}
+
+func cloneRHS(r *ref.RHS) *ref.RHS {
+	c := &ref.RHS{K: r.K, Name: r.Name}
+	for _, s := range r.Subs {
+		c.Subs = append(c.Subs, cloneRHS(s))
+	}
+	return c
+}
+
+// genEBNF draws a specification whose rules are all reachable and productive by construction: the rules x and y use
+// literals only, start uses literals, x and y; every bracket operator occurs, often several times on similar operands.
+func genEBNF(t *rapid.T) *ref.SpecModel {
+	lits := []string{"a", "b", "c"}
+	var operands []*ref.RHS
+	var rhs func(depth int, nts []string) *ref.RHS
+	rhs = func(depth int, nts []string) *ref.RHS {
+		k := rapid.IntRange(0, 9).Draw(t, "k")
+		if depth <= 0 {
+			k = 0
+		}
+		switch {
+		case k <= 2:
+			if len(nts) > 0 && rapid.IntRange(0, 2).Draw(t, "useNT") == 0 {
+				return &ref.RHS{K: "nt", Name: rapid.SampledFrom(nts).Draw(t, "nt")}
+			}
+			return &ref.RHS{K: "str", Name: rapid.SampledFrom(lits).Draw(t, "lit")}
+		case k == 3:
+			r := &ref.RHS{K: "cat"}
+			for i := 0; i < 2; i++ {
+				s := rhs(depth-1, nts)
+				switch s.K {
+				case "cat":
+					r.Subs = append(r.Subs, s.Subs...)
+				case "alt":
+					r.Subs = append(r.Subs, &ref.RHS{K: "grp", Subs: []*ref.RHS{s}})
+				default:
+					r.Subs = append(r.Subs, s)
+				}
+			}
+			return r
+		case k == 4:
+			r := &ref.RHS{K: "alt"}
+			for i, n := 0, rapid.IntRange(2, 3).Draw(t, "alts"); i < n; i++ {
+				s := rhs(depth-1, nts)
+				if s.K == "alt" {
+					for _, x := range s.Subs {
+						if x.K != "empty" {
+							r.Subs = append(r.Subs, x)
+						}
+					}
+				} else {
+					r.Subs = append(r.Subs, s)
+				}
+			}
+			if rapid.IntRange(0, 3).Draw(t, "trail") == 0 {
+				r.Subs = append(r.Subs, &ref.RHS{K: "empty"})
+			}
+			return r
+		default:
+			kind := rapid.SampledFrom([]string{"grp", "opt", "star", "plus", "plus"}).Draw(t, "op")
+			var child *ref.RHS
+			if len(operands) > 0 && rapid.Bool().Draw(t, "sameOperand") {
+				child = cloneRHS(operands[rapid.IntRange(0, len(operands)-1).Draw(t, "oi")]) // the same operand under another operator
+			} else {
+				child = rhs(depth-1, nts)
+				operands = append(operands, child)
+			}
+			return &ref.RHS{K: kind, Subs: []*ref.RHS{child}}
+		}
+	}
+	m := &ref.SpecModel{Name: "g", NameSemi: true}
+	others := []string{"x", "y"}[:rapid.IntRange(0, 2).Draw(t, "rules")]
+	start := rhs(3, others)
+	if rapid.IntRange(0, 2).Draw(t, "sharedOperandShape") == 0 {
+		// one operand under two or three different operators, separated by literals: ( X ) "b" [ X ]
+		operand := rhs(rapid.IntRange(0, 2).Draw(t, "operandDepth"), others)
+		kinds := rapid.Permutation([]string{"grp", "opt", "star", "plus"}).Draw(t, "kinds")[:rapid.IntRange(2, 3).Draw(t, "nk")]
+		join := rapid.SampledFrom([]string{"cat", "alt"}).Draw(t, "join")
+		start = &ref.RHS{K: join}
+		for i, k := range kinds {
+			item := &ref.RHS{K: k, Subs: []*ref.RHS{cloneRHS(operand)}}
+			if join == "cat" && i > 0 && rapid.Bool().Draw(t, "separator") {
+				start.Subs = append(start.Subs, &ref.RHS{K: "str", Name: rapid.SampledFrom(lits).Draw(t, "sepLit")})
+			}
+			if join == "alt" && rapid.Bool().Draw(t, "marker") {
+				item = &ref.RHS{K: "cat", Subs: []*ref.RHS{{K: "str", Name: lits[i]}, item}}
+			}
+			start.Subs = append(start.Subs, item)
+		}
+	}
+	used := map[string]bool{}
+	start.Walk(func(x *ref.RHS) {
+		if x.K == "nt" {
+			used[x.Name] = true
+		}
+	})
+	m.Decls = append(m.Decls, &ref.Decl{Kind: "rule", Name: "start", Semi: true, RHS: start})
+	for _, name := range others {
+		if used[name] {
+			m.Decls = append(m.Decls, &ref.Decl{Kind: "rule", Name: name, Semi: true, RHS: rhs(2, nil)})
+		}
+	}
+	return m
+}
+
+func TestEBNFGrammarsEndToEnd(t *testing.T) {
+	rec.Rule(rule)
+	cyclicListed := rec.Listed(cyclicKey)
+	kernelTolerated()
+	opts := gen.SpecOpts{MaxRules: 2, Depth: 3, Literals: []string{"a", "b", "c"}}
+	rec.Check(t, 600, 30000, func(t *rapid.T) {
+		var m *ref.SpecModel
+		if rapid.IntRange(0, 3).Draw(t, "generator") == 0 {
+			m = gen.Spec(t, opts)
+		} else {
+			m = genEBNF(t)
+		}
+		src := m.Text()
+		n := rec.Pick(5, 6)
+		cls, nt, err := checkEBNF(m, src, n, cyclicListed)
+		if strings.HasPrefix(cls, "excluded") || cls == "too_large" {
+			rec.Count(cls, 1)
+			return
+		}
+		byOperand := map[string]map[string]bool{}
+		for _, r := range m.Rules() {
+			r.RHS.Walk(func(x *ref.RHS) {
+				if x.K == "opt" || x.K == "star" || x.K == "plus" || x.K == "grp" {
+					b, _ := json.Marshal(x.Subs[0])
+					if byOperand[string(b)] == nil {
+						byOperand[string(b)] = map[string]bool{}
+					}
+					byOperand[string(b)][x.K] = true
+				}
+			})
+		}
+		classes := []string{cls}
+		for _, ks := range byOperand {
+			if ks["grp"] && ks["opt"] {
+				classes = append(classes, "same_operand_grouped_and_optional")
+			}
+			if len(ks) >= 2 {
+				classes = append(classes, "same_operand_under_two_operators")
+			}
+		}
+		rec.Case(src, nt, classes...)
+		if nt {
+			rec.Sample(cls, src)
+		}
+		if err != nil {
+			rec.Fail(t, "ebnf", input{Kind: "ebnf", Spec: src, Model: m, N: n}, "%v", err)
 		}
 	})
 }
@@ -714,6 +963,10 @@ func TestReplay(t *testing.T) {
 	switch kind {
 	case "plain":
 		if _, _, err := checkPlain(in.Grammar, in.Spec, in.N); err != nil {
+			rec.Fail(t, kind, in, "%v", err)
+		}
+	case "ebnf":
+		if _, _, err := checkEBNF(in.Model, in.Spec, in.N, rec.Listed(cyclicKey)); err != nil {
 			rec.Fail(t, kind, in, "%v", err)
 		}
 	default:
